@@ -935,7 +935,9 @@ def entry_expected(p):
 
 def entry_line(p):
     """the containment model's view: per entry kind a fault occurrence and a healthy one"""
-    caught_fn = bool(p["legacy"])
+    # trigger functions: the model knows per subsystem whether the call has its own handler (both have one since the
+    # repair of finding C18-F2)
+    caught_fn = "legacy" if p["legacy"] else "new"
     lg = "script"
     ok = "ok"
     R = ["raise", 1]
@@ -1040,7 +1042,7 @@ def gen_cases(rng, tier, search):
     for i in range(n_entry):
         fault = fl[(i * 7 + rng.randrange(len(fl))) % len(fl)] if i >= 2 else ["zerodiv", "user"][i]
         for legacy in (True, False):
-            foci = ["main"] + (["load-import"] if i < 2 else []) + (["trig_func"] if not legacy and i < 2 else [])
+            foci = ["main"] + (["load-import"] if i < 2 else [])
             for focus in foci:
                 p = {"kind": "entry", "fault": fault, "legacy": legacy, "focus": focus}
                 cases.append(Case(p, entry_line(p), tags=("entry", "fault:" + fault, "legacy" if legacy else "new",
@@ -1220,14 +1222,8 @@ def verdict(c):
     if "setup_failed" in res:
         return f"load: a file that raises at load time takes the whole integration down ({res['setup_failed']})"
     focus = p.get("focus", "main")
-    # two deviations are systematic (every run shows them): they are judged by their own cases (focus), so that they
-    # cannot mask a different violation in the same run
-    if focus == "trig_func":
-        k = res["trig_func"]
-        if len(k["script"]) != 1 or k["other"]:
-            return (f"trig_func: {len(k['script'])} error record(s) on the script's logger, {len(k['other'])} on "
-                    f"{sorted({n for n, _ in k['other']})} (expected exactly one, on the script's logger)")
-        return None
+    # one deviation is systematic (every run shows it): it is judged by its own cases (focus), so that it cannot mask
+    # a different violation in the same run
     if focus == "load-import":
         by = {}
         for n, tb, last in res["load"]["script"]:
@@ -1248,11 +1244,6 @@ def verdict(c):
     deferred = None
     for kind in ENTRY_KINDS:
         k = res[kind]
-        if kind in ("trig_func", "trig_func_x3") and not p["legacy"]:
-            # (judged by the focus=trig_func case) containment still has to hold
-            if k["propagated"] or k["propagated_after"] or k["recs_after"] < 1 or k["recs_fault"] != 0:
-                return f"{kind}: not contained in the new subsystem"
-            continue
         if k["propagated"] or k["propagated_after"]:
             return f"{kind}: exception propagated to the caller ({k['propagated'] or k['propagated_after']})"
         if k["recs_after"] < 1:
@@ -1404,7 +1395,7 @@ def classify(c, reason):
                 and "<exception str() failed>" not in r.get("last", ""):
             return "script-exception-class-__str__-not-usable"
         return "tb:" + re.sub(r"\d+", "N", reason)[:50]
-    if reason.startswith("trig_func:") and not p["legacy"] and "on ['function']" in reason:
+    if reason.startswith(("trig_func:", "trig_func_x3:")) and not p["legacy"] and "on ['function']" in reason:
         return "new-subsystem-trigger-function-error-not-on-script-logger"
     if reason.startswith("load-import:"):
         return "imported-module-load-frames-attributed-to-importing-file"
